@@ -124,7 +124,7 @@ CLAIMS = {
 ADDENDA = {
     "C01": "Later additions: the free-form continuation decision table (shared with C04.R8, now with label/construct-name extraction "
            "interpreted from the source and blank-line rows); DATA/NAMELIST/COMMON/DIMENSION list-statement matchers decided as tables (37 rows); index provenance (C01.R21). Also: class-local round trip by interpretation over 265 sample texts (C01.R22: accepted, literals/groups carried over, fixpoint; children are recording stubs validated two levels deep); string_replace_map and its inverse interpreted on 15 lines (R23); block printers on value-comparing stubs (R24); ';' split (R25); list-element registration of 2008 overrides (R26). Found and fixed F49, F51. The same round trip at full depth (R28/R29: the sample parsed all the way down by interpretation, equal tree and same text on re-parse; 1 known row F62).",
-    "C02": "Later additions: continuation decision table (C02.R19); list-statement matcher tables with the re-assembly invariant (C02.R20); index provenance (C02.R21, 282 slices; found and fixed F45, F46). Also: the class-local round trip with token-level equality up to listed canonicalisations (C02.R22; 2 known rows F54, F55); replace-map table (R23; F50, F51 fixed); block printers (R24).",
+    "C02": "Later additions: continuation decision table (C02.R19); list-statement matcher tables with the re-assembly invariant (C02.R20); index provenance (C02.R21, 282 slices; found and fixed F45, F46). Also: the class-local round trip with token-level equality up to listed canonicalisations (C02.R22; 2 known rows F54, F55); replace-map table (R23; F50, F51 fixed); block printers (R24); full-depth round trip at token level (R25).",
     "C03": "Later additions: BinaryOpBase.match decided as a table of 26 rows (operands ending in a dot, excluded operators, split side). Also: BinaryOpBase rows with operand classes that refuse their text; no literal with a signed exponent stays visible after the replace map (R10); expressions parsed all the way down by interpretation, 307 operator pairs grouped as the precedence table requires (R11; the 7 F13 expressions are echoed as known).",
     "C04": "Later additions: continuation rows for lines that begin with digits / name: (never a label or construct name) and blank lines. Also: the continuation loop interpreted over multi-line statements; layout widening of every blank and upper-casing of 354 samples (R10, 1311 texts; found and fixed F58, F59); the standard's optional-blank keyword pairs (R11, 30 pairs; found and fixed F60, F61).",
     "C05": "Later additions: fixed-form continuation table (R9), inline-comment table (R10), and no memoised function on the "
@@ -132,21 +132,21 @@ ADDENDA = {
     "C06": "Later additions: accessor indices within matcher arity (R19, 176 sites); block engine addresses the opening statement by "
            "start_idx (R20); no dereference on a path on which the variable is None for certain (R21, path-sensitive, 40 functions, 1 reviewed exception). Also: the process-terminating name-mismatch path of the block engine is enabled for the eight program-unit blocks only (R22); the reader's item constructors agree on recorded state (R23).",
     "C07": "Later additions: definite-None dereference on clean-up paths (R10); the statement ends where the continuation table says (R11).",
-    "C08": "Later additions: only Program.match's end-of-input probe may call reader.next() inside the parser (R13, who-may-call).",
+    "C08": "Later additions: only Program.match's end-of-input probe may call reader.next() inside the parser (R13, who-may-call). Also: string engines match the whole string (R14; 1 known finding F56); a program unit's END statement is not reachable as an executable construct (R15; 2 known findings F57); END statements compare the type words (R16; found and fixed F58).",
     "C09": "Later additions: no instance attribute mutated in place is bound to a module/class-level mutable or mutable default "
            "(R11, 24 bindings); the table registry is wiped as a whole only by ParserFactory.create (R12). Also: memo purity extended to process-wide parser state (R13, 742 functions).",
     "C11": "Later additions: a strict_order block lists only comment-absorbing parts (R11). Also: no reader method calls self.put_item() on an item it discovers (R6); give-back is last-in first-out on every path (R12, path-sensitive stack).",
     "C12": "Later additions: physical lines are newline-terminated lines only (R9, shared with C07.R5). Also: the ';' split decision is a function of the item alone (no loop-history flag).",
     "C13": "Later additions: block engine addresses the opening statement by start_idx with includes collected before it (R6); the default "
            "include path is per reader, never a shared mutable (R7). Also: a found include file is always expanded (no early return guarded by a grow-only collection); memo purity of the include search (R8); strict-order blocks list only parts (R9).",
-    "C14": "Later additions: handle_cpp_directive interpreted in free, fixed and strict fixed form, with and without indentation of '#'; the source-form detector does not vote on directive lines (R10, 66 lines; found and fixed F47). Also: strict-order blocks list only parts (R11).",
+    "C14": "Later additions: handle_cpp_directive interpreted in free, fixed and strict fixed form, with and without indentation of '#'; the source-form detector does not vote on directive lines (R10, 66 lines; found and fixed F47). Also: strict-order blocks list only parts (R11); match_cpp_directive interpreted on a model reader: each directive line of the oracle reaches the class the oracle names (R12).",
     "C15": "Later additions: OMP continuation decision table incl. lines that continue an open character literal (R5). Also: the continuation loop interpreted over multi-line conditional statements; the nested include reader is given the conditional-line option (R6).",
     "C16": "Later additions: the loops recording declared entities and ONLY-list names are total (R9: per-iteration must-pass-through, no break/return).",
     "C17": "Later additions: a 2008 matcher that re-calls the generic engine passes the 2003 matcher's option flags (R9c); 2008 printers "
            "agree with the 2003 printers on every concrete 2003 result pattern (R13, both printers interpreted). Also: isinstance tests in shared code name classes whose 2008 counterparts derive from them (R14, 39 tests); the class-local round trip under both grammars gives the same acceptance and text (R15, 251 samples); 2008 overrides of list elements register themselves (R16).",
     "C18": "Later additions: no attribute hook reading instance state and no immutable-builtin subclass whose __new__ cannot take the plain "
            "value on any class reachable from a tree (R7, 535 classes). Also: regex match objects and `other.attr = <call>` in the reachable-state rule (R4); nodes of a block are not chained to each other (R8).",
-    "C19": "Later additions: fparser1 length/kind selector helpers decided as tables (R12, 46 rows; found and fixed F44); the list/spec helpers of fparser.common.utils decided as tables with a model of the reader item (R13, 24 rows; 2 known rows, F48). Also: statement round trip by interpretation over 162 samples (R14: class match pattern, process_item, printer; token-level equality up to 9 listed canonicalisations; found and fixed F52, F53).",
+    "C19": "Later additions: fparser1 length/kind selector helpers decided as tables (R12, 46 rows; found and fixed F44); the list/spec helpers of fparser.common.utils decided as tables with a model of the reader item (R13, 24 rows; 2 known rows, F48). Also: statement round trip by interpretation over 162 samples (R14: class match pattern, process_item, printer; token-level equality up to 9 listed canonicalisations; found and fixed F52, F53). Block filling by interpretation through BeginSource on 11 small programs: every line lands in the block and at the depth the sample states (R15; found and fixed F64, 2 known rows F63).",
 }
 
 NA = {
